@@ -206,4 +206,42 @@ def fidelity(tier, seed):
 # Contracts on single calls carry over to every call in a process only if no function keeps state between calls: C19's static-frame obligation is a lemma here.
 from contracts.shared import reregister as _rr_static
 from contracts import c19 as _c19_static
-_rr_static('C18', 'C19', 'C19.no_stateful_local_statics', 'C18.lemma.no_state_between_calls', replay=None)
+HISTORY_REPLAY_C18 = r'''
+#include "gm2calc/THDM.hpp"
+#include "gm2calc/SM.hpp"
+#include "gm2calc/gm2_1loop.hpp"
+#include "gm2calc/gm2_2loop.hpp"
+#include "gm2calc/gm2_uncertainty.hpp"
+#include "gm2_uncertainty_helpers.hpp"
+#include <cstdio>
+#include <cmath>
+// several parameter points are assigned in turn to ONE model object (same address); for each the model-taking uncertainty functions must agree with the
+// overloads given freshly computed a_mu values, and the documented relations must hold
+int main() {
+   int bad = 0;
+   gm2calc::SM sm;
+   gm2calc::thdm::Mass_basis b; b.mh = 125; b.mH = 400; b.mA = 420; b.mHp = 440; b.sin_beta_minus_alpha = 0.995; b.tan_beta = 3; b.m122 = 40000;
+   gm2calc::THDM model(b, sm);
+   const double mA[4] = {420, 80, 1500, 250}, tb[4] = {3, 40, 10, 0.7};
+   for (int k = 0; k < 4; k++) {
+      b.mA = mA[k]; b.tan_beta = tb[k]; b.mHp = mA[k] + 20; b.mH = mA[k] > 130 ? mA[k] - 10 : 140;
+      model = gm2calc::THDM(b, sm);
+      const double a1 = gm2calc::calculate_amu_1loop(model), a2 = gm2calc::calculate_amu_2loop(model);
+      const double u0 = gm2calc::calculate_uncertainty_amu_0loop(model), u1 = gm2calc::calculate_uncertainty_amu_1loop(model), u2 = gm2calc::calculate_uncertainty_amu_2loop(model);
+      const double w0 = gm2calc::calculate_uncertainty_amu_0loop(model, a1, a2), w1 = gm2calc::calculate_uncertainty_amu_1loop(model, a1, a2), w2 = gm2calc::calculate_uncertainty_amu_2loop(model, a1, a2);
+      const bool ok = u0 == w0 && u1 == w1 && u2 == w2 && u2 >= 2e-12 && std::isfinite(u0 + u1 + u2) && std::fabs(u1 - (std::fabs(a2) + u2)) <= 1e-14 * u1;
+      if (!ok) { bad++; std::printf("point %d (mA=%g, tan beta=%g): u0 %.6e vs %.6e, u1 %.6e vs %.6e, u2 %.6e vs %.6e, |a2L|+u2 = %.6e\\n", k, mA[k], tb[k], u0, w0, u1, w1, u2, w2, std::fabs(a2) + u2); }
+   }
+   std::printf("%d of 4 points out of contract\\n", bad);
+   return bad ? 1 : 0;
+}
+'''
+
+def history_replay_c18(model, wd):
+    from gm2v import native
+    import subprocess
+    exe = native.build_against_library(wd, HISTORY_REPLAY_C18)
+    r = subprocess.run([exe], capture_output=True, text=True, timeout=300)
+    return r.returncode == 1, r.stdout.strip()[-1500:]
+
+_rr_static('C18', 'C19', 'C19.no_stateful_local_statics', 'C18.lemma.no_state_between_calls', replay=history_replay_c18)
